@@ -20,6 +20,11 @@ type Scenario struct {
 	Steps   []Step `json:"steps"`
 	// Threads, if present, run concurrently after Steps (each thread issues its requests in order).
 	Threads [][]*Req `json:"threads,omitempty"`
+	// Controlled: the concurrent phase runs under a controller that parks every store and
+	// origin operation and lets exactly one proceed at a time; Sched picks, at the i-th decision,
+	// the (Sched[i] mod #pending)-th pending operation in canonical order (0 once exhausted).
+	Controlled bool  `json:"controlled,omitempty"`
+	Sched      []int `json:"sched,omitempty"`
 	// Faults is the store fault plan: the n-th store operation (0-based, counted over the
 	// whole scenario, in the order they reach the driver.Conn) is altered.
 	Faults []Fault `json:"faults,omitempty"`
